@@ -613,6 +613,9 @@ def termination_obligations(prop, repo, files, readers=(), extra=None, unproven_
             key = (rel.split("/")[-1], q, k)
             oid = f"{prop}/{rel.split('/')[-1]}::{q}/decreases#while-{k}"
             status, detail, secs, nvc, backend = "unknown", "", 0.0, 1, "dataflow"
+            if key in unproven_ok:
+                undecided_listed.append({"loop": f"{rel}:{loop.lineno} {q} while-{k}", "why": "outside the variant rules (listed, not attempted)"})
+                continue
             for rule in (lambda: pop_rule(loop), lambda: shrink_rule(loop), lambda: consume_rule(loop, readers)):
                 r = rule()
                 if r is not None and r[0] == "proved":
